@@ -521,7 +521,7 @@ func (e *Env) index(n *ast.IndexExpr) Val {
 				e.fail("bad index")
 			}
 			b := t.materialize(base, types.Typ[types.String])
-			f := t.declareFun("str.at", []string{"Str", t.mode.idxSort()}, t.mode.intSort(8))
+			f := t.declareFun("gstr.at", []string{"Str", t.mode.idxSort()}, t.mode.intSort(8))
 			return scalar(types.Typ[types.Uint8], sx(f, b.S, i))
 		}
 	}
